@@ -742,8 +742,8 @@ STREAMS = [
     Stream("sd", gen_sd, impl_sd, line_sd, cmp_dict, nontrivial=_nontrivial,
            doc="spatial_derivatives: 6 finite-difference modes x D x key subsets (which / order / None / str / duplicates / "
                "foreign letters) x spacing forms (incl. rejected shapes) on affine, quadratic and random fields"),
-    Stream("sd_bspline", gen_sdb, impl_sdb, line_sdb, lambda c, r, o: cmp_dict(c, r, o, unordered=True), nontrivial=_nontrivial,
-           doc="spatial_derivatives(mode='bspline'): strides 1..3 (scalar / per axis) x key subsets x spacing forms; weights given"),
+    Stream("sd_bspline", gen_sdb, impl_sdb, line_sdb, cmp_dict, nontrivial=_nontrivial,
+           doc="spatial_derivatives(mode='bspline'): strides 1..3 (scalar / per axis) x key subsets (dictionary keyed and ordered by the request) x spacing forms; weights given"),
     Stream("flow_derivs", gen_fderivs, impl_fderivs, line_fderivs, cmp_dict, nontrivial=_nontrivial,
            doc="flow_derivatives: key parsing, grouping per component, de-duplication, default spacing 2/(n-1)"),
     Stream("flow_derivs_bspline", gen_fderivs_b, impl_fderivs, line_fderivs, cmp_dict, nontrivial=_nontrivial,
@@ -1025,8 +1025,7 @@ def check_scaling(c):
     D, N, mode = c["D"], c["N"], c["mode"]
     g = torch.Generator().manual_seed(c["seed"])
     f = torch.randint(-64, 65, (N, 1, *c["shape"]), generator=g).double() / 8
-    keys = spatial_keys(D)
-    keys = [k for k in keys if "".join(sorted(k)) == k] if mode == "bspline" else keys
+    keys = spatial_keys(D)      # incl. unsorted mixed keys in every mode (B-spline branch re-keys since fix 360bf64)
     unit = spatial_derivatives(f, which=keys, mode=mode)
     h = torch.tensor(c["h"], dtype=torch.float64)
     forms = {"matND": h, "vecD": h[0], "mat1D": h[0:1], "matN1": h[:, :1], "scalar": c["s"], "vec1": [c["s"]], "mat11": [[c["s"]]]}
@@ -1082,7 +1081,7 @@ def check_bspline(c):
         a = torch.randint(-16, 17, (D,), generator=g).double() / 8
         coef = (sum(a[j] * idx[j] for j in range(D)) + 0.5).reshape(1, 1, *shape).expand(N, 1, *shape).clone()
     h = torch.tensor(c["h"], dtype=torch.float64)
-    keys = [k for k in spatial_keys(D) if "".join(sorted(k)) == k]
+    keys = spatial_keys(D)
     got = spatial_derivatives(coef, which=keys, mode="bspline", spacing=h, stride=tuple(c["stride"]))
     for k in keys:
         order = [k.count(ch) for ch in "xyz"[:D]]          # x first
